@@ -9,7 +9,7 @@ import re
 
 import vcheck as V
 
-DRIVER_FILES = ["scansim.go", "isosim.go", "codecord.go"]
+DRIVER_FILES = ["scansim.go", "isosim.go", "codecord.go", "mergesim.go"]
 
 _re_mis = re.compile(r'<<\s*"MISMATCH",\s*(\d+),\s*(.*?)(?=<<\s*"MISMATCH"|\Z)', re.S)
 
@@ -91,6 +91,10 @@ def scan_signature(eng, policy, seg):
         sig["family"] = b.get("sp", "").split(":")[0]
         sig["rev"] = bool(b.get("rev"))
         sig["from_empty_cursor"] = b.get("cur") == 0
+        if b.get("sp", "").startswith("merge-"):
+            sig["driver"] = "mergesim"
+            sig["no_count"] = bool(b.get("nc"))
+            sig["count_below_partitions"] = 0 < b.get("count", 0) < 3
     err = e.get("err", "") if e.get("ev") == "page" else ""
     if err:
         sig["class"] = "error-reply"
